@@ -19,7 +19,9 @@ use reactive_mutiny::verif as rv;
 use std::sync::{atomic::{AtomicBool, AtomicU64, Ordering::SeqCst}, Arc, Mutex};
 
 #[derive(Clone, Copy, Debug, PartialEq, Eq)]
-pub enum Mode { Single, Tickets, Constant(i32) }
+pub enum Mode { Single, Tickets, Constant(i32),
+    /// writer 0 records c (so its measurement often equals the current average), the other writers record d
+    TwoConstants(i32, i32) }
 
 #[derive(Clone, Debug)]
 pub struct Cfg { pub mode: Mode, pub writers: usize, pub per_writer: u32, pub readers: usize, /** (count, average) the metric starts from */ pub origin: Option<(u32, i32)> }
@@ -47,9 +49,10 @@ pub fn one_run(cfg: &Cfg, rc: &RunCfg, acc: &mut Acc) -> (Option<J>, u64, bool) 
     let mut bodies: Vec<Body> = Vec::new();
     for _w in 0..cfg.writers {
         let (ex, tickets, wd, cfg2) = (ex.clone(), tickets.clone(), writers_done.clone(), cfg.clone());
+        let _w = _w;
         bodies.push(Box::new(move || {
             for k in 1..=cfg2.per_writer as u64 {
-                let v = match cfg2.mode { Mode::Single => (2 * k - 1) as f32, Mode::Tickets => { let t = tickets.fetch_add(1, SeqCst) + 1; (2 * t - 1) as f32 } Mode::Constant(c) => { tickets.fetch_add(1, SeqCst); c as f32 } };
+                let v = match cfg2.mode { Mode::Single => (2 * k - 1) as f32, Mode::Tickets => { let t = tickets.fetch_add(1, SeqCst) + 1; (2 * t - 1) as f32 } Mode::Constant(c) => { tickets.fetch_add(1, SeqCst); c as f32 } Mode::TwoConstants(c, d) => { tickets.fetch_add(1, SeqCst); if _w == 0 { c as f32 } else { d as f32 } } };
                 if cfg2.mode == Mode::Single { tickets.fetch_add(1, SeqCst); }
                 ex.ok_events_avg_future_duration.inc(v);
                 sched::op_done();
@@ -78,8 +81,15 @@ pub fn one_run(cfg: &Cfg, rc: &RunCfg, acc: &mut Acc) -> (Option<J>, u64, bool) 
                     match cfg2.mode {
                         Mode::Single => if !close(a, m64) { p("inconsistent_pair", format!("probe returned count {m} with average {avg}: after {m} updates (values 1,3,5,...) the mean is exactly {m}")) },
                         Mode::Tickets => { let hi = 2.0 * t_after as f64 - m64; if a < m64 * (1.0 - TOL) - 1e-3 || a > hi * (1.0 + TOL) + 1e-3 { p("inconsistent_pair", format!("probe returned count {m} with average {avg}: no {m} of the {t_after} values 1,3,..,{} have that mean (it lies in [{m}, {hi}])", 2 * t_after - 1)) } }
+                        Mode::TwoConstants(c, d) => {
+                            // (m, avg) belongs together iff avg is the mean of i measurements of c and m - i of d for an integer 0 <= i <= m
+                            let (lo, hi) = ((c.min(d)) as f64, (c.max(d)) as f64);
+                            if a < lo - 1e-3 * lo.abs().max(1.0) || a > hi + 1e-3 * hi.abs().max(1.0) { p("inconsistent_pair", format!("probe returned count {m} with average {avg}: every measurement was {c} or {d}")) }
+                            else if m <= 2000 { let i = m64 * (a - d as f64) / (c as f64 - d as f64); if (i - i.round()).abs() > 0.02 + 2e-4 * m64 { p("inconsistent_pair", format!("probe returned count {m} with average {avg}: no {m} measurements out of {{{c}, {d}}} have that mean (it would take {i:.3} times {c})")) } }
+                        }
                         Mode::Constant(c) if cfg2.origin.is_some() => { let k = m64 - c0 as f64; let want = (c0 as f64 * a0 + k * c as f64) / m64;
-                            if k >= 0.0 && (a - want).abs() > 5e-3 * want.abs().max(1.0) { p("inconsistent_pair", format!("probe returned count {m} with average {avg}: starting from count {c0} / average {a0}, {k} measurements of {c} give {want}")) } }
+                            // (f32: each update may round by one unit in the last place of the average)
+                            if k >= 0.0 && (a - want).abs() > 5e-3 * want.abs().max(1.0) + k * 2.4e-7 * a0.abs().max((c as f64).abs()).max(1.0) { p("inconsistent_pair", format!("probe returned count {m} with average {avg}: starting from count {c0} / average {a0}, {k} measurements of {c} give {want}")) } }
                         Mode::Constant(c) => if !close(a, c as f64) { p("inconsistent_pair", format!("probe returned count {m} with average {avg}, every measurement was {c}")) },
                     }
                 }
@@ -99,8 +109,9 @@ pub fn one_run(cfg: &Cfg, rc: &RunCfg, acc: &mut Acc) -> (Option<J>, u64, bool) 
     if rep.outcome == Outcome::Done {
         if m as u64 != c0 + total { problems.push(("lost_update".into(), format!("{total} measurements were recorded{}, the final count is {m}", if c0 > 0 { format!(" on top of a count of {c0}") } else { String::new() }))) }
         else {
-            let mean = match cfg.mode { Mode::Single | Mode::Tickets => total as f64, Mode::Constant(c) => (c0 as f64 * a0 + total as f64 * c as f64) / (c0 + total) as f64 };
-            if !(if c0 > 0 { (avg as f64 - mean).abs() <= 5e-3 * mean.abs().max(1.0) } else { close(avg as f64, mean) }) { problems.push(("wrong_average".into(), format!("the final average is {avg}, the arithmetic mean of the {total} recorded measurements is {mean}"))) }
+            let mean = match cfg.mode { Mode::Single | Mode::Tickets => total as f64, Mode::Constant(c) => (c0 as f64 * a0 + total as f64 * c as f64) / (c0 + total) as f64,
+                                        Mode::TwoConstants(c, d) => (cfg.per_writer as f64 * c as f64 + (total - cfg.per_writer as u64) as f64 * d as f64) / total as f64 };
+            if !(if c0 > 0 { (avg as f64 - mean).abs() <= 5e-3 * mean.abs().max(1.0) + total as f64 * 2.4e-7 * a0.abs().max(mean.abs()).max(1.0) } else { close(avg as f64, mean) }) { problems.push(("wrong_average".into(), format!("the final average is {avg}, the arithmetic mean of the {total} recorded measurements is {mean}"))) }
         }
     }
     acc.count("measurements", total); acc.count("probes_checked", probes.load(SeqCst));
@@ -118,10 +129,10 @@ pub fn run(args: &Args, acc: &mut Acc) { run_loop(args, acc, single) }
 
 fn single(args: &Args, acc: &mut Acc, seed: u64, verbose: bool) {
     let mut rng = Rng::new(seed);
-    let mode = match rng.below(4) { 0 => Mode::Single, 1 | 2 => Mode::Tickets, _ => Mode::Constant(*rng.pick(&[-1, 3, 1000])) };
+    let mode = match rng.below(5) { 0 => Mode::Single, 1 | 2 => Mode::Tickets, 3 => Mode::Constant(*rng.pick(&[-1, 3, 1000])), _ => { let c = *rng.pick(&[-1, 2, 10]); Mode::TwoConstants(c, c + *rng.pick(&[1, 3, 8, 100])) } };
     let writers = if mode == Mode::Single { 1 } else { 2 + rng.below(2) as usize };
     let per_writer = if args.lane == Lane::Ser { 2 + rng.below(30) as u32 } else { 1000 + rng.below(40_000) as u32 };
-    let with_origin = matches!(mode, Mode::Constant(_)) || rng.chance(1, 4);
+    let with_origin = (matches!(mode, Mode::Constant(_)) && rng.chance(2, 3)) || rng.chance(1, 5);
     let writers = if with_origin && writers < 2 { 2 } else { writers };
     let total = writers as u64 * per_writer as u64;
     let origin = if with_origin {
